@@ -570,6 +570,10 @@ func (st *SortTable) prelude(body string) string {
 (assert (forall ((t Int) (x Int)) (! (= (iface.typ (iface.val t x)) t) :pattern ((iface.val t x)))))
 (assert (forall ((v Iface)) (! (= (iface.typ v) (ite ((_ is iface.ref) v) (ifr.t v) (ite ((_ is iface.int) v) (ifi.t v) (ite ((_ is iface.str) v) (ifs.t v) (ite ((_ is iface.bool) v) (ifb.t v) (ite ((_ is iface.slice) v) (ifl.t v) (ite ((_ is iface.val) v) (ifv.t v) 0))))))) :pattern ((iface.typ v)))))
 (declare-fun implements (Int Int) Bool)
+(declare-fun fslot (Ref Int) Ref)
+(declare-fun fslot.owner (Ref) Ref)
+(declare-fun fslot.fid (Ref) Int)
+(assert (forall ((o Ref) (i Int)) (! (and (= (fslot.owner (fslot o i)) o) (= (fslot.fid (fslot o i)) i)) :pattern ((fslot o i)))))
 (declare-fun sl.get.byte ((Array IDX BYTE) IDX IDX) BYTE)
 (assert (forall ((a (Array IDX BYTE)) (o IDX) (i IDX)) (! (= (sl.get.byte a o i) (select a (idx.add o i))) :pattern ((sl.get.byte a o i)))))
 (declare-fun gs.of (Ref (Array IDX BYTE) IDX IDX) Str)
@@ -582,6 +586,8 @@ func (st *SortTable) prelude(body string) string {
 		if strings.HasPrefix(line, "(assert (forall") {
 			sym := ""
 			switch {
+			case strings.Contains(line, "fslot"):
+				sym = "fslot"
 			case strings.Contains(line, "iface.typ"):
 				sym = "iface.typ"
 			case strings.Contains(line, "gs.of"):
